@@ -174,4 +174,10 @@ def replay(chk, path):
         print(l[:110], '->', o[:160])
     if rc:
         print(err[-2500:])
+    if 'MemorySanitizer' in open(path).read(3000) or 'never wrote' in open(path).read(3000):
+        # a replay of an uninitialised read: the MemorySanitizer build shows it
+        vlib.SHADOW['exe'] = vlib.build_msan()
+        reached, err = vlib.msan_lines(lines)
+        print('--- under MemorySanitizer: %d of %d calls reached' % (len(reached), len(lines)))
+        print(err[-2500:] if err else 'no uninitialised read reported')
     return 0
